@@ -186,7 +186,7 @@ func init() {
 	})
 }
 
-var jsonTextPieces = []string{"a", "b", "ab", " ", "\"", "\\", "\n", "\t", "\x01", "<", ">", "&", "é", "日本", "\xff", "\xc3", "\u2028", "'", "/", "0", "\x7f", "\r\n"}
+var jsonTextPieces = []string{"a", "b", "ab", " ", "\"", "\\", "\n", "\t", "\x01", "<", ">", "&", "é", "日本", "\xff", "\xc3", "\u2028", "'", "/", "0", "\x7f", "\r\n", "\\u003c", "\\u0026b\\u003e", "\\n", "\\\""}
 var jsonBodies = []string{
 	"at least 1 any", "(at least 1 not ' ') = w", "at least 1 (any = c) named L", "any = first (at least 0 not ' ') = rest",
 	"at least 1 ((not ' ') = ch ' ' or file end) named words", "in '\"', '\\\\', '<', '&' (maybe any) = next", "at most 3 any = x", "'zzz'",
